@@ -4,6 +4,7 @@ import ref
 
 # name -> arity (number of operand slots)
 UNARY = ["not", "missing", "exists", "binary_not", "neg"]
+COLLATE = "collate"   # {"collate": [expr, collation-name]}: one operand slot
 TERNARY = ["between", "not_between"]
 SPECIAL_BIN = ["in", "nin", "regexp", "not_regexp", "concat"]
 FLAT = set(ref.FLATTENED)
@@ -16,10 +17,10 @@ class TreeGen:
         self.n = 0
 
     def names(self):
-        return self.fmt + UNARY + TERNARY + SPECIAL_BIN + ["cast", "case", "fn"]
+        return self.fmt + UNARY + TERNARY + SPECIAL_BIN + ["cast", "case", "fn", COLLATE]
 
     def arity(self, name):
-        if name in UNARY or name == "cast":
+        if name in UNARY or name == "cast" or name == COLLATE:
             return 1
         if name in TERNARY or name == "case":
             return 3
@@ -49,6 +50,8 @@ class TreeGen:
             return {name: kids[0]}
         if name == "cast":
             return {"cast": [kids[0], {"int": {}}]}
+        if name == COLLATE:
+            return {"collate": [kids[0], "nocase"]}
         if name == "case":
             return {"case": [{"when": kids[0], "then": kids[1]}, kids[2]]}
         if name == "fn":
@@ -105,7 +108,7 @@ class TreeGen:
         v = next(iter(t.values()))
         if r == "case":
             kids = [v[0]["when"], v[0]["then"], v[1]]
-        elif r == "cast":
+        elif r == "cast" or r == COLLATE:
             kids = [v[0]]
         elif isinstance(v, list):
             kids = v
